@@ -53,7 +53,9 @@ def run_demo(scratch, d, prop):
 
 
 rows = []
-for sid in ids:
+
+
+def one(sid):
     d = f"{VERIF}/seeded/{sid}"
     patch = open(f"{d}/patch.diff").read()
     meta = json.load(open(f"{d}/meta.json"))
@@ -66,7 +68,7 @@ for sid in ids:
         json.dump(meta, open(f"{d}/meta.json", "w"), indent=1)
         rows.append((sid, meta["breaks_property"], "patch no longer applies (the code it changes was repaired since)", "", ""))
         shutil.rmtree(scratch, ignore_errors=True)
-        continue
+        return
     own = meta["breaks_property"]
     if mode == "all":
         checks = claimed
@@ -105,6 +107,13 @@ for sid in ids:
     rows.append((sid, own, ", ".join(detected) or ("no longer a violation (repaired since)" if demo_note.startswith("demonstration no longer") else "MISSED"), ", ".join(alarms), first[:150]))
     shutil.rmtree(scratch, ignore_errors=True)
     print(rows[-1], flush=True)
+
+
+import concurrent.futures as _cf
+
+with _cf.ThreadPoolExecutor(max_workers=int(os.environ.get("MATRIX_JOBS", "3"))) as _ex:
+    list(_ex.map(one, ids))
+rows.sort()
 shutil.rmtree(snap, ignore_errors=True)
 # README: merge with earlier rows for ids not run now
 readme = f"{VERIF}/seeded/README.md"
